@@ -150,13 +150,42 @@ class CustomFootnoteDef(footnote.FootnoteDef):
 
     override: bool = True
 
+    @classmethod
+    def match(cls, source: Source) -> re.Match[str] | None:  # pyright: ignore[reportImplicitOverride]
+        m = source.expect_re(cls.pattern)
+        if not m:
+            return None
+        # Only a definition whose own prefix is found again on the line can consume it
+        # (tabs in enclosing containers can defeat the prefix arithmetic): otherwise the
+        # line is ordinary text.
+        line = source.next_line(require_prefix=False)
+        matched = source.match_prefix(source.prefix + cls(m)._prefix, line) >= 0
+        source.match = m if matched else None
+        return source.match
+
+    @classmethod
+    def parse(cls, source: Source) -> footnote.FootnoteDef:  # pyright: ignore[reportImplicitOverride]
+        start = source.pos
+        state = super().parse(source)
+        if source.pos == start:
+            # Whatever the prefix arithmetic did, a block that consumes nothing would be
+            # parsed again and again: take the line as it is.
+            source.next_line(require_prefix=False)
+            source.consume()
+        return state
+
     def __init__(self, match: re.Match[str]) -> None:
         super().__init__(match)
         text = match.string
         line_start = text.rfind("\n", 0, match.start()) + 1
         before = text[line_start : match.start()].expandtabs(4)
         whole = text[line_start : match.end()].expandtabs(4)
-        self._prefix: str = re.escape(whole[len(before) :])
+        expanded = whole[len(before) :]
+        label_part = expanded.strip(" ")
+        trailing = len(expanded) - len(expanded.rstrip(" "))
+        # Up to three columns may precede the label: written there, or left over from a tab
+        # that was only partly used up by an enclosing quote or list item.
+        self._prefix: str = rf" {{0,3}}{re.escape(label_part)} {{0,{trailing}}}"
         # Continuation lines are indented by four columns. Marko's ` {1,4}` can give some of
         # them back to an enclosed block, so that the second of two sibling list items
         # (`    - b` / `    - c`) is read as nested in the first.
